@@ -125,7 +125,7 @@ PROPS = {
         rule="scripts of 3-16 steps over the real driver (current-thread runtime, paused clock, in-memory transport): start single/direct-search/adapted-search/abandon/unbind operations on cloned handles with and without timeouts (0, 1, 1000, 5000 ms), one start in five held between id allocation and the send to the driver while other operations overtake it, server responses for live, finished and unknown ids (entries, references, intermediates, done, other ops) delivered in two writes, clock advances around the deadlines, next()/finish() calls, EOF / garbage / read error / write error / partial message / handle drop; observation after EVERY step (per-op status and delivered tokens, request log, id table, routing gauges, driver result). non-trivial = distinct script in which at least one operation completed. fault lane: three fixed exchanges x every prefix x 8 fault kinds (EOF, garbage, read error, write error, partial message + EOF/error, handle drop, unbind)",
         trivial=[],
         trusted=["modelled not verified: Tokio scheduler, mpsc/oneshot FIFO and close semantics, time::timeout polling the inner future first, select! as nondeterministic choice among ready branches; script-to-event mapping of the runner (ocaml/connrun.ml settle loop)"],
-        assumptions=["the write of a request is one event of the model (DrvOp): it completes. A write that blocks for good - the peer stops reading - stalls the real driver, which serves nothing else meanwhile: known finding F49, oracle-only wstall cases", "callers on several threads are modelled by the Alloc / Enqueue split of Start (id taken under the shared mutex, request handed to the driver later; exercised on the real code through the hook verif_hold_next_alloc); true parallelism inside next_msgid itself is the mutex's business (oracle-only mt lane)", "theorems over whole histories: below the wrap-around of the 31-bit id counter (beyond it: the id-table hook lane)"],
+        assumptions=["the operation channel in the models has two outcomes for a send that meets a connection task which is ending (the send fails; the queued request dies with the receiver); the third - accepted and never read, a property of tokio's channel under real threads - is repaired in op_call (F58) and decided by the oracle-only mtclose cases", "the write of a request is one event of the model (DrvOp): it completes. A write that blocks for good - the peer stops reading - stalls the real driver, which serves nothing else meanwhile: known finding F49, oracle-only wstall cases", "callers on several threads are modelled by the Alloc / Enqueue split of Start (id taken under the shared mutex, request handed to the driver later; exercised on the real code through the hook verif_hold_next_alloc); true parallelism inside next_msgid itself is the mutex's business (oracle-only mt lane)", "theorems over whole histories: below the wrap-around of the 31-bit id counter (beyond it: the id-table hook lane)"],
     ),
     "C05": dict(
         groups=[("msgid", 400, 40000), ("conn", 300, 20000), ("mt", 40, 1500)],
